@@ -182,7 +182,54 @@ def forgeReal (c : Case) : Verdict :=
         if model == impl then .ok tag else .diff tag model
   | _, _, _ => .bad "forge_real: bad input"
 
+/-- records of one message (`c:21+37` → 2). -/
+def recCount (s : String) : Nat :=
+  match s.splitOn ":" with
+  | [_, "-"] => 0
+  | [_, rs] => (rs.splitOn "+").length
+  | _ => 0
+
+/-- a forged pair whose reader polls with read deadlines while every message's first two records
+arrive in two pieces with a deadline expiring in between (`cut`: inside the header, right after it,
+inside the body, before the last byte). Model: timeouts and chunking are transparent
+(`C27.poll_transparent`), so the outcome and the record lengths are those of `forge`.
+Monitors: as for `forge` — data intact in both directions, no error other than the timeouts the
+reader asked for. -/
+def forgePoll (c : Case) : Verdict :=
+  match c.input.nat "id", c.input.nat "ver", (listOf (c.input.getD "msgs" "-")).mapM parseMsg with
+  | some id, some ver, some msgs =>
+    let weak := c.input.getD "weak" "0" == "1"
+    let tbl := tableFor weak
+    let mc := make tbl id ver true
+    let ms := make tbl id ver false
+    let r := (lookup tbl id).getD default
+    let mrow := supportedRow weak id
+    let mr := mrow.getD default
+    let implC := c.output.getD "c" "?"
+    let implS := c.output.getD "s" "?"
+    let implRes := c.output.getD "res" "?"
+    let valid := mrow.isSome && validVersion mr ver
+    let tag := s!"w{b01 weak},{if mrow.isSome then kindTag mr.kind else "nosuite"},{verTag ver},{if valid then "valid" else if mrow.isNone then "unsupported" else "offlabel"},cut={c.input.getD "cut" "?"}"
+    if (c.output.get "out").isSome then .diff tag s!"harness: out={c.output.getD "out" ""} {c.output.getD "msg" ""}" else
+    if mrow.isNone && (implC != "nil" || implS != "nil") then
+      .propFail tag s!"unknown-suite-not-nil c={implC} s={implS}"
+    else if valid && (implC != "conn" || implS != "conn") then
+      .propFail tag s!"supported-suite-no-connection c={implC} s={implS}"
+    else if valid && implRes != "ok" then
+      .propFail tag s!"data-not-intact-under-deadline-polling res={implRes}"
+    else
+      let both := match mc, ms with | .conn _, .conn _ => true | _, _ => false
+      let recs := if both then simulate r ver msgs {} {} else some []
+      match recs with
+      | none => .diff tag "model: no progress in writeRecords"
+      | some recs =>
+        let splits := (recs.map fun s => min 2 (recCount s)).foldl (· + ·) 0
+        let model := s!"c={outcomeStr mc} s={outcomeStr ms} recs={if both then joinRecs recs else "-"} splits={splits} res={if both then "ok" else "skip"}"
+        let impl := s!"c={implC} s={implS} recs={c.output.getD "recs" "?"} splits={c.output.getD "splits" "?"} res={implRes}"
+        if model == impl then .ok tag else .diff tag model
+  | _, _, _ => .bad "forge_poll: bad input"
+
 def families : List (String × (Case → Verdict)) :=
-  [("forge", forge), ("forge_nil", forgeNil), ("forge_real", forgeReal)]
+  [("forge", forge), ("forge_nil", forgeNil), ("forge_real", forgeReal), ("forge_poll", forgePoll)]
 
 end Drv.C27
